@@ -53,7 +53,9 @@ def gen_profile(rng, big=False):
     kind = rng.weighted([("regular", 4), ("irregular", 3), ("clustered", 1), ("regular_float_range", 3), ("surface_gap", 1.5), ("log", 1)])
     return {"N": N, "kind": kind, "hmin": rng.choice([0.0, 0.0, 10.0, round(rng.uniform(0, 500), 3)]),
             "hmax": rng.choice([20000.0, 25000.0, rng.uniform(5000, 30000)]), "fill": rng.randrange(10 ** 6),
-            "decades": rng.choice([0, 1, 3, 6]), "wind": rng.chance(0.6)}
+            "decades": rng.choice([0, 1, 3, 6]), "wind": rng.chance(0.6),
+            # how the caller holds the profile: dtype and memory layout are the caller's business
+            "h_int": rng.chance(0.1), "strided": rng.chance(0.15), "readonly": rng.chance(0.15)}
 
 
 def gen_plan(rng, tier, index=0):
@@ -122,6 +124,23 @@ def build_profile(sp):
             h[i] = h[i - 1] + 1.0
     p = 10.0 ** rs.uniform(-sp["decades"] / 2.0, sp["decades"] / 2.0, N) * 1e-15
     w = rs.uniform(1.0, 40.0, N) if sp["wind"] else None
+    if sp.get("h_int"):
+        h = numpy.round(h).astype("int64")
+        for i in range(1, N):
+            if h[i] <= h[i - 1]:
+                h[i] = h[i - 1] + 1
+    if sp.get("strided"):
+        def strided(a):
+            if a is None:
+                return None
+            big = numpy.zeros(2 * len(a), dtype=a.dtype)
+            big[::2] = a
+            return big[::2]
+        h, p, w = strided(h), strided(p), strided(w)
+    if sp.get("readonly"):
+        for a in (h, p, w):
+            if a is not None:
+                a.setflags(write=False)
     return h, p, w
 
 
@@ -343,10 +362,16 @@ def execute(plan, keep_log=False):
         sp = plan["profiles"][pi]
         N = len(p)
         if st["op"] == "refill":
-            h2, p2, w2 = build_profile(dict(sp, fill=st["fill"]))
+            h2, p2, w2 = build_profile(dict(sp, fill=st["fill"], readonly=False))
+            for a in (p, h):
+                if not a.flags.writeable:
+                    a.setflags(write=True)
             p[:] = p2                          # same objects, new contents
             if st.get("which") == "hp" and sp["kind"] in ("irregular", "clustered"):
                 h[:] = h2
+            if sp.get("readonly"):
+                p.setflags(write=False)
+                h.setflags(write=False)
             res.count("fault.profile_arrays_refilled_in_place")
             hist.append("refill")
             log.add(si, "refill", pi, core.harr(p))
